@@ -257,7 +257,7 @@ def variants(rng, case, tier):
             out.append(xf_reroot(rng, case, tg, merge=rng.random() < 0.5))
     for tg in rng.sample(edges, min(nmax, len(edges))):
         out.append(xf_split(rng, case, tg))
-    out.append(xf_split(rng, case, rng.choice(edges), extreme=rng.choice([1e-9, 1e-12, 1 - 1e-10, 0.0, 0.0, 1.0])))
+    out.append(xf_split(rng, case, rng.choice(edges), extreme=rng.choice([1e-9, 1e-12, 1 - 1e-10])))
     return out
 
 
@@ -463,6 +463,18 @@ def check_api(rep, case, obs, stats):
     return False
 
 
+def zero_length_corpus():
+    """the ONE deterministic witness of known finding C11-K1 (an edge split at fraction 0: a piece of length exactly
+    0.0).  Every other block steers away from exact zeros (fractions 0.0 / 1.0, tree lengths 0.0)."""
+    tree = {"name": "root", "len": None, "ch": [c02.leaf("a", 0.1), c02.leaf("b", 0.2),
+                                                 {"name": "x", "len": 0.5, "ch": [c02.leaf("c", 0.3), c02.leaf("d", 0.4)]}]}
+    base = dict(model="HKY85", moltype="dna", tree=c02.newick(tree), _t=tree,
+                aln=[["a", "ACGTNN-AACA"], ["b", "ACGTRYTAACA"], ["c", "ACGTAC-AACA"], ["d", "ACATAC?AACA"]],
+                mprobs={"A": 0.1, "C": 0.2, "G": 0.3, "T": 0.4}, pseed=21, scoped=None, bins=None, light=False, xf="base", factor=1,
+                recode_gaps=True)
+    return base, [xf_split(random.Random(0), base, "c", extreme=0.0)]
+
+
 def strip(case):
     return {k: v for k, v in case.items() if not k.startswith("_")}
 
@@ -539,7 +551,7 @@ def run(tier: str, seed: int) -> int:
     nbase = 26 if tier == "quick" else 180
     nbuilt = 20 if tier == "quick" else 120
     bases = [base_case(rng, tier) for _ in range(nbase)] + [built_base_case(rng, tier, k) for k in range(nbuilt)]
-    groups = [(b, variants(rng, b, tier)) for b in bases]
+    groups = [zero_length_corpus()] + [(b, variants(rng, b, tier)) for b in bases]
     flat = []
     for b, vs in groups:
         flat.append(b)
@@ -603,7 +615,9 @@ def run(tier: str, seed: int) -> int:
         if not b["light"]:
             for c in [b] + vs:
                 o = obs_of[id(c)]
-                if isinstance(o, dict) and "exc" not in o:
+                # an input on which a parameter value is already reported wrong (e.g. the known zero-length finding)
+                # is not compared again through the model: the divergence there is that finding itself
+                if isinstance(o, dict) and "exc" not in o and id(c) not in bad_params:
                     try:
                         model_jobs.append((c, o, c02.exact_inputs(o)))
                     except ValueError:
